@@ -157,6 +157,89 @@ func (e *storEnv) emitView() {
 	e.w.L("CNT deltas=%d nontemp=%d size=%d unsaved0=%d unsaved1=%d unsaved2=%d",
 		e.ps.Deltas(), e.ps.DeltasWithoutTempAddresses(), e.ps.DeltasSizeWithoutTempAddresses(),
 		b2i(e.ps.HasUnsavedChanges(hx.MkAddr(0))), b2i(e.ps.HasUnsavedChanges(hx.MkAddr(1))), b2i(e.ps.HasUnsavedChanges(hx.MkAddr(2))))
+	// model-free: the observers of the write set against the write set itself (hook VerifDeltas)
+	var owned, size uint64
+	has := map[uint64]bool{}
+	for id, s := range deltas {
+		has[id.AddressAsUint64()] = true
+		if id.AddressAsUint64() != 0 {
+			owned++
+			if s != nil {
+				size += uint64(s.ByteSize())
+			}
+		}
+	}
+	if got := uint64(e.ps.Deltas()); got != uint64(len(deltas)) {
+		e.violation("C15", fmt.Sprintf("Deltas() = %d, the write set holds %d entries", got, len(deltas)))
+	}
+	if got := uint64(e.ps.DeltasWithoutTempAddresses()); got != owned {
+		e.violation("C15", fmt.Sprintf("DeltasWithoutTempAddresses() = %d, the write set holds %d entries under owned addresses", got, owned))
+	}
+	if got := e.ps.DeltasSizeWithoutTempAddresses(); got != size {
+		e.violation("C15", fmt.Sprintf("DeltasSizeWithoutTempAddresses() = %d, the pending slabs under owned addresses have %d bytes", got, size))
+	}
+	for a := uint64(0); a <= 2; a++ {
+		if got := e.ps.HasUnsavedChanges(hx.MkAddr(a)); got != has[a] {
+			e.violation("C15", fmt.Sprintf("HasUnsavedChanges(%d) = %v, the write set holds an entry under that address: %v", a, got, has[a]))
+		}
+	}
+}
+
+// readObs renders what a retrieve flavour returned: the slab (version), the found flag and, next
+// to an error, whether a slab value came back with it.
+func readObs(s atree.Slab, found bool, err error) string {
+	f := 0
+	if found {
+		f = 1
+	}
+	if err != nil {
+		v := "nil"
+		if s != nil {
+			v = "set"
+		}
+		return fmt.Sprintf("err:%s found=%d slab=%s", hx.ErrKind(err), f, v)
+	}
+	return fmt.Sprintf("slab:%s found=%d", slabVer(s), f)
+}
+
+// checkReadErr: model-free reading of the three results of a FAILED read.  No slab comes back with
+// an error; the found flag is the base storage's answer: the flag the ledger returned next to its
+// own failure, true for a register that exists but does not decode.
+func (e *storEnv) checkReadErr(what string, id atree.SlabID, s atree.Slab, found bool, err error, ledgerFound bool) {
+	if err == nil {
+		return
+	}
+	if s != nil {
+		e.violation("C15", fmt.Sprintf("%s(%s) returned a slab value (%T) together with the error %s", what, hx.IDStr(id), s, hx.ErrKind(err)))
+	}
+	if found != ledgerFound {
+		e.violation("C15", fmt.Sprintf("%s(%s) failed with %s and found=%v; the base storage answered found=%v", what, hx.IDStr(id), hx.ErrKind(err), found, ledgerFound))
+	}
+}
+
+// cacheEffect: who populates the read cache.  A read served from the write set or the cache, a
+// cache-bypassing read and a failed read leave it alone; a successful read that reached the ledger
+// with caching on adds exactly the decoded slab it returns.  No read touches the write set.
+func (e *storEnv) cacheEffect(what string, id atree.SlabID, before layers, s atree.Slab, found bool, err error, viaDeltas, caching bool) {
+	after := e.snap()
+	if !sameLayer(before.deltas, after.deltas) {
+		e.violation("C15", what+": the write set changed")
+	}
+	_, inD := before.deltas[id]
+	_, inC := before.cache[id]
+	if (viaDeltas && inD) || inC || !caching || err != nil || !found {
+		if !sameLayer(before.cache, after.cache) {
+			e.violation("C15", fmt.Sprintf("%s(%s): the read cache changed (%d -> %d entries) although the read was served from memory, bypasses the cache, found nothing or failed", what, hx.IDStr(id), len(before.cache), len(after.cache)))
+		}
+		return
+	}
+	if c, ok := after.cache[id]; !ok || c != s {
+		e.violation("C15", fmt.Sprintf("%s(%s) read the slab from the ledger but the read cache does not hold the returned slab afterwards", what, hx.IDStr(id)))
+	}
+	delete(after.cache, id)
+	if !sameLayer(before.cache, after.cache) {
+		e.violation("C15", fmt.Sprintf("%s(%s): other entries of the read cache changed", what, hx.IDStr(id)))
+	}
 }
 
 // oracle view
@@ -182,12 +265,13 @@ func (e *storEnv) checkRead(what string, id atree.SlabID, got atree.Slab, found 
 	}
 }
 
-func storageStream(cfg *Config) *hx.Stats {
+func storageStream(cfg *Config) (res *hx.Stats) {
 	st := hx.NewStats("storage", cfg.Seed)
 	rng := rand.New(rand.NewSource(cfg.Seed*104729 + 5))
 	w := hx.NewW(filepath.Join(cfg.Out, fmt.Sprintf("storage-%d.trace", cfg.Seed)))
 	defer w.Close()
 	st.TraceFiles = append(st.TraceFiles, w.Path)
+	defer recoverAsViolation(st, w, &res)
 	nProg := int(120 * cfg.Scale)
 	seen := map[string]bool{}
 	for p := 0; p < nProg; p++ {
@@ -260,6 +344,9 @@ func runStorageProgram(e *storEnv, nOps int, p int) string {
 			w.L("ST store id=%s ver=%d", hx.IDStr(id), v)
 			err := e.ps.Store(id, slab)
 			w.L("OBS %s", obsErr(err))
+			if id == atree.SlabIDUndefined && hx.ErrKind(err) != "SlabIDUndefined:Fatal" {
+				e.violation("C15", "Store under the undefined identifier: "+obsErr(err)+", want a fatal SlabIDError")
+			}
 			if err == nil {
 				e.pend[id] = v
 			} else if id != atree.SlabIDUndefined {
@@ -273,17 +360,25 @@ func runStorageProgram(e *storEnv, nOps int, p int) string {
 			w.L("ST remove id=%s", hx.IDStr(id))
 			err := e.ps.Remove(id)
 			w.L("OBS %s", obsErr(err))
+			if id == atree.SlabIDUndefined && hx.ErrKind(err) != "SlabIDUndefined:Fatal" {
+				e.violation("C15", "Remove of the undefined identifier: "+obsErr(err)+", want a fatal SlabIDError")
+			}
 			if err == nil {
 				e.pend[id] = -1
+			} else if id != atree.SlabIDUndefined {
+				e.violation("C15", "Remove failed: "+err.Error())
 			}
 			sig.WriteByte('r')
 		case r < 47:
 			w.L("ST get id=%s", hx.IDStr(id))
+			before := e.snap()
 			s, found, err := e.ps.Retrieve(id)
+			w.L("OBS %s", readObs(s, found, err))
+			e.cacheEffect("Retrieve", id, before, s, found, err, true, true)
 			if err != nil {
-				w.L("OBS err:%s", hx.ErrKind(err))
+				_, inLedger := e.ledger.Seg[id]
+				e.checkReadErr("Retrieve", id, s, found, err, inLedger)
 			} else {
-				w.L("OBS slab:%s", slabVer(s))
 				e.checkRead("Retrieve", id, s, found)
 				if found != (s != nil) {
 					e.violation("C15", "Retrieve: found flag disagrees with slab")
@@ -292,20 +387,36 @@ func runStorageProgram(e *storEnv, nOps int, p int) string {
 			sig.WriteByte('g')
 		case r < 54:
 			w.L("ST getloaded id=%s", hx.IDStr(id))
+			before := e.snap()
 			s := e.ps.RetrieveIfLoaded(id)
 			w.L("OBS slab:%s", slabVer(s))
 			if s != nil {
 				e.checkRead("RetrieveIfLoaded", id, s, true)
 			}
+			// exactly what the in-memory layers hold: the pending entry if there is one, else the cached one
+			want, ok := before.deltas[id]
+			if !ok {
+				want = before.cache[id]
+			}
+			if s != want {
+				e.violation("C15", fmt.Sprintf("RetrieveIfLoaded(%s) = version %s, the write set / cache hold version %s", hx.IDStr(id), slabVer(s), slabVer(want)))
+			}
+			e.noTrace(fmt.Sprintf("RetrieveIfLoaded(%s)", hx.IDStr(id)), before, false)
 			sig.WriteByte('l')
 		case r < 61:
 			c := e.rng.Intn(2)
 			w.L("ST getnodelta id=%s cache=%d", hx.IDStr(id), c)
-			s, _, err := e.ps.RetrieveIgnoringDeltas(id, c == 1)
+			before := e.snap()
+			s, found, err := e.ps.RetrieveIgnoringDeltas(id, c == 1)
+			w.L("OBS %s", readObs(s, found, err))
+			e.cacheEffect("RetrieveIgnoringDeltas", id, before, s, found, err, false, c == 1)
 			if err != nil {
-				w.L("OBS err:%s", hx.ErrKind(err))
+				_, inLedger := e.ledger.Seg[id]
+				e.checkReadErr("RetrieveIgnoringDeltas", id, s, found, err, inLedger)
 			} else {
-				w.L("OBS slab:%s", slabVer(s))
+				if found != (s != nil) {
+					e.violation("C15", "RetrieveIgnoringDeltas: found flag disagrees with slab")
+				}
 				if cv, ok := e.comm[id]; ok && cv != verGarbage && slabVer(s) != fmt.Sprintf("%d", cv) {
 					e.violation("C15", fmt.Sprintf("RetrieveIgnoringDeltas(%s) = %s, ledger has %d", hx.IDStr(id), slabVer(s), cv))
 				}
@@ -369,7 +480,8 @@ func runStorageProgram(e *storEnv, nOps int, p int) string {
 				if _, d := atree.VerifDeltas(e.ps)[id]; !d {
 					if _, c := atree.VerifCache(e.ps)[id]; !c {
 						w.L("ST corrupt id=%s", hx.IDStr(id))
-						e.ledger.Seg[id] = []byte{0x10}
+						forms := garbageRegisters()
+						e.ledger.Seg[id] = forms[(e.prog+e.step)%len(forms)] // (no draw here: the history stays a function of the seed)
 						e.comm[id] = verGarbage
 						sig.WriteByte('x')
 						did = true
@@ -401,6 +513,63 @@ func runStorageProgram(e *storEnv, nOps int, p int) string {
 		e.st.Samples = append(e.st.Samples, fmt.Sprintf("ids=%d ops=%s", len(e.ids), sig.String()))
 	}
 	return sig.String()
+}
+
+var garbageForms [][]byte
+
+// garbageRegisters: registers that do not decode, of every shape DecodeSlab tells apart: too short
+// for a head, and a valid head of each container slab kind (array data / index slab, map data /
+// index slab) followed by a payload that is cut off - the decoder of that kind runs and fails.  (The
+// payload of a large-value slab is decoded by the caller's StorableDecoder alone.)
+func garbageRegisters() [][]byte {
+	if garbageForms != nil {
+		return garbageForms
+	}
+	forms := [][]byte{{0x10}}
+	// (the longest prefix the LIBRARY's decoder rejects: a prefix that fails inside the caller's
+	// StorableDecoder / TypeInfoDecoder comes back as an external error, which is another outcome)
+	cut := func(b []byte) {
+		for n := len(b) - 1; n >= 2; n-- {
+			if _, err := atree.DecodeSlab(atree.SlabID{}, b[:n], hx.DecMode(), hx.DecodeStorable, hx.DecodeTypeInfo); err != nil && hx.ErrKind(err) == "Decoding:Fatal" {
+				forms = append(forms, append([]byte(nil), b[:n]...))
+				return
+			}
+		}
+	}
+	enc := func(s atree.Slab) []byte {
+		b, err := atree.EncodeSlab(s, hx.EncMode())
+		if err != nil {
+			panic(err)
+		}
+		return b
+	}
+	addr := hx.MkAddr(1)
+	for _, n := range []int{5, 400} { // one data slab; an index slab over several data slabs
+		scratch := hx.NewStorage(hx.NewLedger())
+		a, err := atree.NewArray(scratch, addr, hx.TI(1))
+		if err != nil {
+			panic(err)
+		}
+		m, err := atree.NewMap(scratch, addr, atree.NewDefaultDigesterBuilder(), hx.TI(2))
+		if err != nil {
+			panic(err)
+		}
+		for i := 0; i < n; i++ {
+			if err := a.Append(hx.TV{Size: 20, Pay: uint64(i)}); err != nil {
+				panic(err)
+			}
+			if _, err := m.Set(hx.CompareKey, hx.HashInput, hx.TV{Size: 9, Pay: uint64(i + 1)}, hx.TV{Size: 20, Pay: uint64(i)}); err != nil {
+				panic(err)
+			}
+		}
+		cut(enc(atree.VerifArrayRoot(a)))
+		cut(enc(atree.VerifMapRoot(m)))
+	}
+	if len(forms) < 5 {
+		panic(fmt.Sprintf("only %d of 5 garbage register forms could be built", len(forms)))
+	}
+	garbageForms = forms
+	return forms
 }
 
 // snapshot of the in-memory layers (object identity included) for "left no trace" oracles
@@ -448,11 +617,15 @@ func (e *storEnv) noTrace(what string, before layers, cacheMayGrow bool) {
 // as an external error and leave no trace.
 func (e *storEnv) failingRead(id atree.SlabID) {
 	mode := e.rng.Intn(3)
-	e.w.L("ST failget id=%s mode=%d", hx.IDStr(id), mode)
+	// the found flag the ledger returns next to its failure: RetrieveIgnoringDeltas hands it on
+	bfound := e.rng.Intn(2)
+	e.w.L("ST failget id=%s mode=%d bfound=%d", hx.IDStr(id), mode, bfound)
 	before := e.snap()
 	_, inDeltas := before.deltas[id]
 	_, inCache := before.cache[id]
 	e.ledger.ReadFail[id] = true
+	e.ledger.ReadFailFound = bfound == 1
+	defer func() { e.ledger.ReadFailFound = false }()
 	var s atree.Slab
 	var found bool
 	var err error
@@ -465,25 +638,27 @@ func (e *storEnv) failingRead(id atree.SlabID) {
 	what := fmt.Sprintf("read of %s (mode %d) with a failing ledger read", hx.IDStr(id), mode)
 	if (mode == 0 && inDeltas) || inCache {
 		e.st.Hit("failing-read:served-in-memory")
+		e.w.L("OBS %s", readObs(s, found, err))
 		if err != nil {
 			e.violation("C15", what+": failed although the identifier is served from memory: "+hx.ErrKind(err))
-			e.w.L("OBS err:%s", hx.ErrKind(err))
 		} else {
-			e.w.L("OBS slab:%s", slabVer(s))
 			if mode == 0 {
 				e.checkRead("Retrieve", id, s, found)
+			}
+			if found != (s != nil) {
+				e.violation("C15", what+": found flag disagrees with slab")
 			}
 		}
 	} else {
 		e.st.Hit("failing-read:reached-the-ledger")
+		e.w.L("OBS %s", readObs(s, found, err))
 		if err == nil {
 			e.violation("C15", what+": returned no error")
-			e.w.L("OBS slab:%s", slabVer(s))
 		} else {
-			e.w.L("OBS err:%s", hx.ErrKind(err))
-			if hx.ErrKind(err) != "Injected:External" || s != nil {
+			if hx.ErrKind(err) != "Injected:External" {
 				e.violation("C15", what+": reported as "+hx.ErrKind(err))
 			}
+			e.checkReadErr(what, id, s, found, err, bfound == 1)
 		}
 	}
 	e.noTrace(what, before, false)
